@@ -27,7 +27,7 @@ RULE = (
 ASSUMPTIONS = [
   "sign and cone conventions are MuJoCo's documented ones (force >= 0 pushes out of the constraint; elliptic cone "
   "sum_j (f_j/friction_j)^2 <= f_normal^2)",
-  "float32 allowances: cone membership 1e-4 relative, friction loss 1e-5 relative, qfrc_constraint 64*eps32*(|J|^T|f| + "
+  "float32 allowances: cone membership 1e-4 relative, friction loss 1e-5 relative, qfrc_constraint 128*eps32*(|J|^T|f| + "
   "|Ma| + |qfrc_smooth| + start-point terms) because Newton/pyramidal reconstructs it as Ma - qfrc_smooth - grad",
   "worlds whose row capacity overflowed are skipped (C16); iteration-limit worlds ARE judged (admissibility does not need convergence)",
 ]
